@@ -528,9 +528,6 @@ class FakePopen:
     def __init__(self, emu, cmd, **kw):
         self.cmd = cmd
         self.returncode = 0
-        w = emu.world
-        if w is not None:
-            w.trace.append("subprocess:" + os.path.basename(cmd[0]))
 
     def communicate(self):
         if "procfiles" in self.cmd[0]:
